@@ -90,7 +90,7 @@ def _(value: dt.datetime, /) -> ht.datetime:
         value.minute,
         value.second,
         value.microsecond,
-        value.tzinfo,
+        tzinfo=value.tzinfo,
         fold=value.fold,
     )
 
